@@ -244,6 +244,7 @@ func main() {
 		writeLeaf(*leafOut, leafPkgs, f)
 		if bt := leafPkgs["bt"]; bt != nil {
 			writeValidateFilter(*leafOut, bt, f)
+			writeIncludeCell(*leafOut, bt, f)
 		}
 	}
 	sort.Strings(f.Unavailable)
